@@ -400,6 +400,11 @@ class StmtGen(Gen):
         out = []
         for _ in range(n):
             out += self.stmt(d, nest)
+        if self.in_function and self.loop_depth > 0 and self.r.random() < 0.15:
+            # an unconditional return as the LAST statement of a loop body (or of a block inside one): the loop's own
+            # clean-up code follows a block that has already returned
+            out.append(self.ret_stmt(d))
+            self.cells.add(("stmt", "return-ends-block-in-loop", self.loop_depth))
         self.scope = saved
         return out
 
